@@ -18,9 +18,19 @@ Model driver for the `mutex` line protocol (C15).  One operation per input line,
   rounds <holders>                        -> fin
   overlap <holders> | <k>                 -> fin | n/a    fin: the first k holders are compatible with
         all others and the model reaches a state with all k inside together by scheduling only them
+  parties <holders> | <nA> <nB>           -> fin | stuck | n/a
+        three and more parties (`disjoint_never_blocked` / `third_party_not_serialised`): the first nA holders are
+        brought inside, the next nB are advanced until none of them can move (n/a unless each is then parked in
+        `Lock`), then the remaining holders — n/a unless each is compatible with ALL others — are scheduled alone
+        until all are inside; fin: they got there while the first nA are still inside and the nB have not moved
   ivs <h>:<enter>:<exit>:<rows> …         -> accept | reject <i> <j> <name>      (interval monitor)
   tasks <tasks> | <controller>            -> fin          (tasks_deadlock_free/tasks_all_finish: the tasks model
         `MutexTasks.tsys`, both lock variants, run to the end by a lowest-first and a highest-first scheduler)
+  ptasks <ptasks> | <controller>          -> fin lm=<map>;<map>;… | n/a
+        task sets submitted through the `pip:run` command: <ptasks> = `;`-separated `<waits>/<rlock list>/<wlock list>`
+        (a list = `-` or `,`-separated names).  The lock map of every task is `parseLocks` (the model of pipc.Run's
+        two `markBoolMapForNamespace` calls, wlock last) of its two lists in the empty namespace; printed per task
+        (rows sorted by name, `<name>.<r|w>`); then as `tasks`.  n/a: a list the command refuses.
   tivs <waits>[f];… | <h>:<enter>:<exit>:<rows> … (or `-`: none)  -> accept | afterfailed <task> <prerequisite> | reject <i> <j> <name> | early <task> <prerequisite>
         interval monitor + order monitor (`MutexTasks.orderMonitor`) on the bodies recorded from the real runner
   tswap <tasks>                           -> stuck <schedule> | nostuck | unknown
@@ -218,6 +228,50 @@ def runFin (maps : List LockMap) : String :=
   let fuel := 8 * (maps.map List.length).sum + 8 * maps.length + 8
   if runToEnd .pref (init maps) fuel && runToEnd .plain (init maps) fuel then "fin" else "stuck"
 
+/-! ### parties: holders inside, waiters parked, compatible late-comers must get inside -/
+
+/-- schedule only the holders `idx` (those not yet inside) until all of them are inside -/
+partial def driveInsideOf (s : State) (idx : List Nat) (fuel : Nat) : Option State :=
+  if idx.all (fun j => match s[j]? with | some h => h.isInside | none => false) then some s else
+  if fuel = 0 then none else
+  let mv := idx.findSome? fun j =>
+    match s[j]? with
+    | some h => if h.isInside then none else step .pref s j
+    | none => none
+  match mv with
+  | none => none
+  | some t => driveInsideOf t idx (fuel - 1)
+
+def acquiring (s : State) (j : Nat) : Bool :=
+  match s[j]? with
+  | some h => (match h.pc with | .acq _ _ => true | _ => false)
+  | none => false
+
+/-- advance the holders `idx` while they are inside `Lock` until none of them can move -/
+partial def driveBlocked (s : State) (idx : List Nat) (fuel : Nat) : State :=
+  if fuel = 0 then s else
+  match idx.findSome? fun j => if acquiring s j then step .pref s j else none with
+  | none => s
+  | some t => driveBlocked t idx (fuel - 1)
+
+def runParties (maps : List LockMap) (nA nB : Nat) : String :=
+  let n := maps.length
+  let fuel := 8 * (maps.map List.length).sum + 8 * n + 8
+  if nA = 0 || nA + nB > n then "n/a" else
+  let as := List.range nA
+  let bs := (List.range (nA + nB)).drop nA
+  let cs := (List.range n).drop (nA + nB)
+  if !cs.all (compatibleWithAll maps) then "n/a" else
+  match driveInsideOf (init maps) as fuel with
+  | none => "n/a"
+  | some s1 =>
+    let s2 := driveBlocked s1 bs fuel
+    if !bs.all (acquiring s2) then "n/a" else
+    match driveInsideOf s2 cs fuel with
+    | none => "stuck"
+    | some s3 =>
+      if (as ++ bs).all (fun j => s3[j]? == s2[j]?) && runToEnd .pref s3 fuel then "fin" else "stuck"
+
 /-! ### interval monitor -/
 
 def parseInterval (t : String) : Option (Nat × Nat × Nat × List (String × Bool)) :=
@@ -289,6 +343,31 @@ def runTasksFin (tasks : List MutexTasks.Task) : String :=
     runTasksToEnd v tasks up (MutexTasks.init tasks) fuel && runTasksToEnd v tasks up.reverse (MutexTasks.init tasks) fuel
   if ok then "fin" else "stuck"
 
+/-! ### tasks submitted through `pip:run`: the two lock lists go through `parseLocks` -/
+
+def bytesToString (b : Bytes) : String := String.ofList (b.map fun c => Char.ofNat c.toNat)
+
+def parsePTask (t : String) : Option (List Nat × List (String × Bool)) :=
+  match t.splitOn "/" with
+  | [w, r, wl] => do
+    let ws ← if w = "-" || w = "" then some [] else (w.splitOn ",").mapM String.toNat?
+    let lst := fun (x : String) => if x = "-" then [] else Goat.str x
+    let m ← parseLocks [] (lst r) (lst wl)
+    pure (ws, m.map fun (k, v) => (bytesToString k, v))
+  | _ => none
+
+def mapText (m : List (String × Bool)) : String :=
+  let items := (m.map fun (k, v) => s!"{k}.{if v then "w" else "r"}").toArray.qsort (· < ·) |>.toList
+  if items.isEmpty then "-" else ",".intercalate items
+
+def runPTasks (t : String) : String :=
+  match (t.trimAscii.toString.splitOn ";").mapM parsePTask with
+  | none => "n/a"
+  | some raw =>
+    let pool := namePool (raw.map (·.2))
+    let tasks : List MutexTasks.Task := raw.map fun (ws, m) => { waits := ws, map := toLockMap pool m, fails := false }
+    s!"{runTasksFin tasks} lm={";".intercalate (raw.map fun (_, m) => mapText m)}"
+
 /-- depth-first search of the swapped system for a state with no enabled step and an unfinished task -/
 partial def swapSearch (tasks : List MutexTasks.Task) (todo : List (MutexTasks.TState × List Nat))
     (seen : List MutexTasks.TState) (fuel : Nat) : String :=
@@ -359,7 +438,12 @@ def stepLine (line : String) : String :=
       match arg.trimAscii.toString.toNat? with
       | some k => withHolders hs fun maps => runOverlap maps k
       | none => "bad-op"
+    | ["parties", hs] =>
+      match (arg.splitOn " ").filter (· ≠ "") |>.mapM String.toNat? with
+      | some [nA, nB] => withHolders hs fun maps => runParties maps nA nB
+      | _ => "bad-op"
     | ["tasks", ts] => match parseTasks ts with | some tasks => runTasksFin tasks | none => "bad-op"
+    | ["ptasks", ts] => runPTasks ts
     | "tivs" :: ws => runTaskMonitor (" ".intercalate ws) ((arg.splitOn " ").filter fun t => t ≠ "" && t ≠ "-")
     | _ => "bad-op"
   | _ => "bad-op"
